@@ -123,6 +123,8 @@ def src(e) -> str:
     if k == "post":
         return f"{e[1]}{e[2]}"
     if k == "stmtexpr":
+        if len(e) > 5 and not e[5]:
+            return f"({{ {e[3]} = {src(e[4])}; {e[3]}; }})"      # assigns an already declared local
         return f"({{ {e[1]} {e[3]} = {src(e[4])}; {e[3]}; }})"
     if k == "load":
         return f"(({e[1]})mem_load_{e[3]}{e[4]}(EA))"
@@ -166,6 +168,8 @@ def stmt_src(s) -> str:
         return s[1]
     if k == "exprstmt":
         return f"{src(s[1])};"
+    if k == "ret":
+        return f"return {src(s[1])};"
     if k == "block":
         return "{ " + " ".join(stmt_src(x) for x in s[1]) + " }"
     raise ValueError(k)
@@ -201,7 +205,7 @@ def expr_features(e, out: set, ctx="value"):
             out.add("literal_cast")
     elif k == "un":
         expr_features(e[2], out)
-        if e[2][0] == "lit":
+        if folds(e[2]):
             out.add("fold_unary")
         t = ctype(e[2])
         if _conv_risky(t, promote(t)):
@@ -210,7 +214,7 @@ def expr_features(e, out: set, ctx="value"):
         a, b = e[2], e[3]
         expr_features(a, out)
         expr_features(b, out)
-        if a[0] == "lit" and b[0] == "lit":
+        if folds(a) and folds(b):
             out.add("fold_arith")
         ct = common(ctype(a), ctype(b))
         for x in (a, b):
@@ -227,7 +231,7 @@ def expr_features(e, out: set, ctx="value"):
         a, b = e[2], e[3]
         expr_features(a, out)
         expr_features(b, out)
-        if a[0] == "lit" and b[0] == "lit":
+        if folds(a) and folds(b):
             out.add("fold_cmp")
         ta, tb = ctype(a), ctype(b)
         if ta != tb:
@@ -248,6 +252,8 @@ def expr_features(e, out: set, ctx="value"):
         a, b = e[2], e[3]
         expr_features(a, out, "cond")
         expr_features(b, out, "cond")
+        if _has_hybrid(b):
+            out.add("hybrid_in_logic_rhs")    # C evaluates the right operand only when needed
         if is_boolish(a) != is_boolish(b):
             out.add("logic_mixed")
         elif not is_boolish(a) and ctype(a) != ctype(b):
@@ -264,9 +270,11 @@ def expr_features(e, out: set, ctx="value"):
         expr_features(c, out, "cond")
         expr_features(a, out)
         expr_features(b, out)
-        if c[0] == "lit" or (c[0] == "cmp" and c[2][0] == "lit" and c[3][0] == "lit"):
+        if folds(c):
             out.add("const_cond")
         for x in (a, b):
+            if x[0] == "stmtexpr" and (len(x) <= 5 or x[5]):
+                out.add("stmtexpr_arm_fresh_local")   # the arm's value local is set only inside the guarded statement
             if _has_hybrid(x) and x[0] != "stmtexpr":
                 out.add("hybrid_in_ternary_arm")
             if x[0] == "stmtexpr" and _has_hybrid(x[4]):
@@ -291,6 +299,24 @@ def expr_features(e, out: set, ctx="value"):
         if _conv_risky(ctype(e[4]), e[2]):
             out.add("signed_widen_to_unsigned")
     return out
+
+
+def folds(e) -> bool:
+    """Over-approximation of "the code's compile-time result is a LetVar with an int value" (Number or folded Bool)."""
+    k = e[0]
+    if k == "lit":
+        return True
+    if k == "un":
+        return folds(e[2])
+    if k == "bin":
+        return e[1] in ("+", "-", "*", "/") and folds(e[2]) and folds(e[3])
+    if k == "cmp":
+        return folds(e[2]) and folds(e[3])
+    if k == "tern":
+        return folds(e[1]) and (folds(e[2]) or folds(e[3]))
+    if k == "cast":
+        return folds(e[3])      # a cast to the literal's own (suffix) type returns the literal itself
+    return False
 
 
 def _has_hybrid(e) -> bool:
@@ -398,10 +424,29 @@ def stmt_features(s, out: set):
         expr_features(s[1], out)
         if _has_hybrid(s[1]):
             out.add("unused_hybrid")
+        if _bare_stmtexprs(s[1]):
+            out.add("stmt_expr_bare")
     elif k == "block":
         for x in s[1]:
             stmt_features(x, out)
     return out
+
+
+def _touches(s, v) -> bool:
+    """does a statement (deeply) modify variable v by a hybrid or an assignment?"""
+    if isinstance(s, list):
+        return any(_touches(x, v) for x in s)
+    if not isinstance(s, tuple) or not s:
+        return False
+    if s[0] == "post" and s[1] == v:
+        return True
+    if s[0] in ("assign",) and s[1][0] == "var" and s[1][1] == v:
+        return True
+    if s[0] == "chain" and any(l[0] == "var" and l[1] == v for l in (s[1], s[2])):
+        return True
+    if s[0] == "for" and s[1] == v:
+        return True
+    return any(_touches(x, v) for x in s[1:] if isinstance(x, (tuple, list)))
 
 
 def _regs(x, reads: set, writes: set):
@@ -436,10 +481,65 @@ def _regs(x, reads: set, writes: set):
             _regs(y, reads, writes)
 
 
+def _mods_reads(e, mods: list, reads: list):
+    """variables modified by hybrids / read, within one full expression"""
+    if not isinstance(e, tuple) or not e:
+        return
+    k = e[0]
+    if k == "post":
+        mods.append(e[1])
+        return
+    if k == "stmtexpr":
+        mods.append(e[3])
+        _mods_reads(e[4], mods, reads)
+        return
+    if k == "var":
+        reads.append(e[1])
+        return
+    for x in e[1:]:
+        if isinstance(x, tuple):
+            _mods_reads(x, mods, reads)
+        elif isinstance(x, list):
+            for y in x:
+                _mods_reads(y, mods, reads)
+
+
+def _interference(e) -> bool:
+    mods, reads = [], []
+    _mods_reads(e, mods, reads)
+    return len(mods) != len(set(mods)) or bool(set(mods) & set(reads))
+
+
+def _stmt_exprs(s):
+    k = s[0]
+    if k == "decl":
+        return [s[4]] if s[4] is not None else []
+    if k == "assign":
+        return [("bin", "+", s[1], s[3])] if s[1][0] == "var" else [s[3]]
+    if k == "chain":
+        return [("bin", "+", ("bin", "+", s[1], s[2]), s[4])]
+    if k == "store":
+        return [x for x in (s[2], s[3]) if x is not None]
+    if k == "if":
+        return [s[1]] + [e for x in s[2] + (s[3] or []) for e in _stmt_exprs(x)]
+    if k == "for":
+        return [s[2]] + [e for x in s[3] for e in _stmt_exprs(x)]
+    if k in ("jump", "exprstmt", "ret"):
+        return [s[1]]
+    if k == "block":
+        return [e for x in s[1] for e in _stmt_exprs(x)]
+    return []
+
+
 def features(stmts) -> set:
     out = set()
     for s in stmts:
         stmt_features(s, out)
+        if any(_interference(e) for e in _stmt_exprs(s)):
+            out.add("unsequenced_interference")
+    for s in stmts:
+        if s[0] == "for" and any(_touches(x, s[1]) for x in s[3]):
+            out.add("loop_var_modified_in_body")
     reads, writes = set(), set()
     _regs(list(stmts), reads, writes)
     for r in writes - reads:
@@ -669,10 +769,14 @@ class Gen:
             v = r.choice(["i", "j", "k"])
             self.need.add(v)
             return ("post", v, op)
+        self.stats["stmt_expr"] += 1
+        if self.locals and r.random() < 0.5:
+            n = r.choice(sorted(self.locals))
+            self.stats["stmt_expr_existing_local"] += 1
+            return ("stmtexpr", "", self.locals[n], n, self.expr(depth - 1), False)
         t = self.pick_type()
         n = self.fresh()
-        self.stats["stmt_expr"] += 1
-        return ("stmtexpr", self.tyname(t), t[1], n, self.expr(depth - 1))
+        return ("stmtexpr", self.tyname(t), t[1], n, self.expr(depth - 1), True)
 
     def stmt(self, nest=None):
         r = self.r
@@ -728,6 +832,10 @@ class Gen:
         if x < 0.03:
             self.stats["misc"] += 1
             return ("raw", r.choice(["cancel_slot;", "STORE_SLOT_CANCELLED(pkt, slot);", ";", "{}"]))
+        x -= 0.03
+        if x < self.c.hybrids * 0.25:
+            self.stats["expr_stmt_hybrid"] += 1
+            return ("exprstmt", self.hybrid_expr(2))
         y = r.random()
         if y < 0.35 or not self.locals:
             t = self.pick_type()
